@@ -583,7 +583,7 @@ def judge_real(ctx, ml, pre, post, case, cycles='VW', M_cache=None, pd=True):
             continue
         a = asym(M)
         ctx.rel_err(min(a, 1.0) if a <= TOL_SYM else 0.0)
-        if STATS['asym'] < a <= TOL_SYM:
+        if STATS['asym'] < a <= TOL_SYM and not any(unpack(x)[0] in NE_NAMES for x in as_list(pre) + as_list(post)):
             STATS['asym'], STATS['asym_case'] = a, (case.get('ctor', case.get('kind')), case.get('pre'), case.get('post'), cyc, M.shape[0])
         if a > TOL_SYM:
             ctx.violation(f'symmetric_smoothing=True (A Hermitian, R = P^H) but the {cyc}-cycle preconditioner is not Hermitian: '
